@@ -60,6 +60,7 @@ class Ctx:
         self.tag = tag
         self.feas = z3.Solver()
         self.feas.set('timeout', 1500)
+        self.feas.set('rlimit', 3000000)
         self.full = None          # second, complete-context solver (created when a quantified fact is assumed)
         self.effects = []         # recorded effects (rng draws, global writes, logger calls ...)
         self.ghost = {}           # free-form ghost state for harnesses
@@ -75,21 +76,26 @@ class Ctx:
         return z3.Function('%s!%d' % (base, self.n), *sorts)
 
     # -- assumptions / obligations
-    def assume(self, e, goal=False):
+    def assume(self, e, goal=False, feas=True):
+        """feas=False: the fact is a hypothesis of later obligations but is kept out of the (cheap) path-feasibility solvers
+        (used for non-linear definitional facts, which can make those solvers run away)"""
         e = lift(e)
         self.pc.append(e)
         if not goal:
             self.pc_nogoal.append(e)
+        if not feas:
+            return
         if not _has_quant(e):
-            self.feas.add(e)
+            self.feas.add(_linearize(e))
         elif self.full is None:
             self.full = z3.Solver()
             self.full.set('timeout', 800)
+            self.full.set('rlimit', 3000000)
             for h in self.pc:
-                self.full.add(h)
+                self.full.add(_linearize(h))
             return
         if self.full is not None:
-            self.full.add(e)
+            self.full.add(_linearize(e))
 
     def oblige(self, name, goal, kind='safety', note=''):
         goal = lift(goal)
@@ -104,6 +110,7 @@ class Ctx:
         self.assume(goal, goal=True)     # after asserting, may assume
 
     def feasible(self, extra):
+        extra = _linearize(extra)
         self.feas.push()
         self.feas.add(extra)
         r = self.feas.check()
@@ -177,7 +184,7 @@ class Ctx:
             return True
         sol = self.full if self.full is not None else self.feas
         sol.push()
-        sol.add(z3.Not(e))
+        sol.add(_linearize(z3.Not(e)))
         r = sol.check()
         sol.pop()
         return r == z3.unsat
@@ -189,6 +196,59 @@ class Ctx:
             if self.branch(b):
                 return k
         return n - 1
+
+
+_UMULR = z3.Function('umul_r', R, R, R)
+_UMULI = z3.Function('umul_i', I, I, I)
+_UDIVR = z3.Function('udiv_r', R, R, R)
+_UDIVI = z3.Function('udiv_i', I, I, I)
+_UMODI = z3.Function('umod_i', I, I, I)
+_LIN_CACHE = {}
+
+
+def _is_num(t):
+    return z3.is_int_value(t) or z3.is_rational_value(t)
+
+
+def _linearize(e):
+    """Over-approximation used ONLY by the path-feasibility solvers: products / quotients of two non-constant terms become
+    uninterpreted function applications, so those solvers stay in linear arithmetic + UF (z3 does not honour its time limit
+    reliably on non-linear real arithmetic).  More paths may look feasible; obligations are always sent unmodified."""
+    key = e.get_id()
+    hit = _LIN_CACHE.get(key)
+    if hit is not None:
+        return hit[0]
+    if z3.is_quantifier(e) or not z3.is_app(e) or e.num_args() == 0:
+        r = e
+    else:
+        ch = [_linearize(c) for c in e.children()]
+        k = e.decl().kind()
+        if k == z3.Z3_OP_MUL:
+            nums = [c for c in ch if _is_num(c)]
+            rest = [c for c in ch if not _is_num(c)]
+            if len(rest) >= 2:
+                f = _UMULR if e.sort() == R else _UMULI
+                acc = rest[0]
+                for c in rest[1:]:
+                    acc = f(acc, c)
+                for c in nums:
+                    acc = c * acc
+                r = acc
+            else:
+                r = e.decl()(*ch)
+        elif k == z3.Z3_OP_DIV and not _is_num(ch[1]):
+            r = _UDIVR(ch[0], ch[1])
+        elif k == z3.Z3_OP_IDIV and not _is_num(ch[1]):
+            r = _UDIVI(ch[0], ch[1])
+        elif k in (z3.Z3_OP_MOD, z3.Z3_OP_REM) and not _is_num(ch[1]):
+            r = _UMODI(ch[0], ch[1])
+        else:
+            try:
+                r = e.decl()(*ch)
+            except z3.Z3Exception:
+                r = e
+    _LIN_CACHE[key] = (r, e)
+    return r
 
 
 def _has_quant(e):
@@ -515,6 +575,32 @@ def _eq(a, b):
     return z3.eq(z3.simplify(a), z3.simplify(b))
 
 
+_EPOCH = [0]     # bumped on every in-place array update: memoised element terms of (dynamic) views are then recomputed
+
+
+def _memo(f):
+    """memoise an element closure on the identity of its index terms (closures are re-entered many times by nested expressions)"""
+    if getattr(f, '_is_memo', False):
+        return f
+    cache = {}
+    ep = [_EPOCH[0]]
+
+    def g(*ix):
+        if ep[0] != _EPOCH[0]:
+            cache.clear()
+            ep[0] = _EPOCH[0]
+        ix = tuple(i if z3.is_expr(i) else lift(i) for i in ix)
+        key = tuple(i.get_id() for i in ix)
+        hit = cache.get(key)
+        if hit is None:
+            r = f(*ix)
+            cache[key] = (r, ix)     # keep the index terms alive: ast ids are only unique among live terms
+            return r
+        return hit[0]
+    g._is_memo = True
+    return g
+
+
 class SArr:
     """n-d array: shape = tuple of z3 Int terms (ndim concrete), element closure idx -> z3 term.
 
@@ -526,9 +612,9 @@ class SArr:
 
     def __init__(self, shape, elem, kind, nan=None, member=None, buf=None, view_of=None, incr=False):
         self.shape_e = tuple(z3.simplify(lift(s)) for s in shape)
-        self.elem = elem
+        self.elem = _memo(elem)
         self.kind = kind
-        self.nan = nan
+        self.nan = _memo(nan) if nan is not None else None
         self.member = member
         self.buf = buf if buf is not None else next(_buf_ids)
         self.view_of = view_of
@@ -1165,8 +1251,9 @@ class SArr:
 
     def _store(self, newelem, newnan):
         """install new contents; for a basic-indexing view the update is written through to the base array"""
+        _EPOCH[0] += 1
         if self.view_of is None or getattr(self, 'view_plan', None) is None:
-            self.elem, self.nan = newelem, newnan
+            self.elem, self.nan = _memo(newelem), (_memo(newnan) if newnan is not None else None)
             return
         base, plan = self.view_of, self.view_plan
         oldb, oldbn = base.elem, base.nan
